@@ -243,13 +243,26 @@ def run_files(binary, target, files, tr, cwd, want_samples=0, origin=None):
                 tr.incon.append("%s: seed replay exceeded the wall-clock watchdog" % target)
                 break
         text = open(errp, errors="replace").read()
-        ran = RUNNING_RE.findall(text)
-        results = RESULT_RE.findall(text)
+        ran, results, pairs, cur = [], [], [], None
+        for ln in text.split("\n"):
+            m = RUNNING_RE.match(ln)
+            if m:
+                cur = m.group(1).strip()
+                ran.append(cur)
+                continue
+            m = RESULT_RE.match(ln)
+            if m:
+                results.append(m.groups())
+                if cur is not None:         # (libFuzzer's own initial empty run precedes the first file)
+                    pairs.append((cur, m.groups()))
+                    cur = None
         tr.execs += len(results)
         tr.parsed += sum(1 for r in results if r[0] == "parsed")
-        for f, r in zip(ran, results):
+        for f, r in pairs:
             if len(tr.samples) < want_samples:
-                tr.samples.append("%s <- %s (%s B): %s" % (target, os.path.relpath((origin or {}).get(f, f), CORPUS), r[1], r[0]))
+                src = (origin or {}).get(f, f)
+                name = os.path.relpath(src, CORPUS) if src.startswith(CORPUS) else os.path.basename(src)
+                tr.samples.append("%s <- %s (%s B): %s" % (target, name, r[1], r[0]))
         if rc == 0:
             good += remaining
             break
